@@ -29,4 +29,19 @@ theorem layout_constants :
     Gen.c_FILE_IV_MARK = 48 ∧ Gen.c_PADDING = 38 ∧ Gen.c_FILE_TEXT_MARK = (List.range 17).map (fun t => 48 + 20 * t) ∧ Gen.c_THREAD_MAX = 16 ∧
     Gen.c_BUF_SUM = 16 * Gen.c_BUF_SZ := by decide
 
+/-- the file does not depend on the hash-buffer size `H` (an implementation parameter): two configurations with the same worker count and
+    chunk size write the same bytes — so the `H` the harness compiles in is immaterial for the production value -/
+theorem file_independent_of_hash_buffer (c1 c2 : Cfg) (hT : 1 ≤ c1.T) (hB : 1 ≤ c1.B) (h1 : 1 ≤ c1.H) (h2 : 1 ≤ c2.H)
+    (eT : c2.T = c1.T) (eB : c2.B = c1.B) (ctype htype : Nat) (hc : ctype ≤ 4) (hh : htype ≤ 2) (key : Block) (seed plain : Bytes)
+    (hs : seed.length < 2 ^ 50) (hp : plain.length < 2 ^ 50) (hTT : c1.T < 2 ^ 40) :
+    ∃ f1 f2, encrypt c1 ctype htype key seed plain = .ok f1 ∧ encrypt c2 ctype htype key seed plain = .ok f2 ∧ f1.data = f2.data := by
+  obtain ⟨f1, e1, d1⟩ := encrypted_file_is_documented_format c1 hT hB h1 ctype htype hc hh key seed plain hs hp hTT
+  obtain ⟨f2, e2, d2⟩ := encrypted_file_is_documented_format c2 (eT ▸ hT) (eB ▸ hB) h2 ctype htype hc hh key seed plain hs hp (eT ▸ hTT)
+  exact ⟨f1, f2, e1, e2, by rw [d1, d2, eT, eB]⟩
+
+/-- two plaintexts of the same length give files of the same length: the length of the file reveals ⌊n/16⌋ and nothing else about the plaintext -/
+theorem length_depends_on_block_count_only (cfg : Cfg) (hT : 1 ≤ cfg.T) (hB : 1 ≤ cfg.B) (hH : 1 ≤ cfg.H) (ctype htype : Nat) (hc : ctype ≤ 4) (hh : htype ≤ 2)
+    (k1 k2 : Block) (s1 s2 p1 p2 : Bytes) (f1 f2 : WFile) (he1 : encrypt cfg ctype htype k1 s1 p1 = .ok f1) (he2 : encrypt cfg ctype htype k2 s2 p2 = .ok f2)
+    (hl : p1.length / 16 = p2.length / 16) : f1.data.length = f2.data.length := by
+  rw [encrypted_length cfg hT hB hH ctype htype hc hh k1 s1 p1 f1 he1, encrypted_length cfg hT hB hH ctype htype hc hh k2 s2 p2 f2 he2, hl]
 end Wencry.Props.C02
